@@ -37,10 +37,11 @@ const (
 // several decoders legitimately spend ~30 us per array element on a
 // mismatching element type, so (1) the "slow" rule is on CPU time of the
 // process (getrusage), not wall time: a case is a violation when it needs more
-// than 5 s + 100 us per input byte of CPU; (2) a case that has not returned
+// than 10 s + 200 us per input byte of CPU (process-wide, so it includes the
+// collector's worker threads: 13 s were observed for the 131 KB formatter case); (2) a case that has not returned
 // after 120 s + 400 us per byte of WALL time is abandoned (the run stops with
 // a violation: a stuck decoder cannot be cancelled).
-func slowAfter(n int) time.Duration    { return 5*time.Second + time.Duration(n)*100*time.Microsecond }
+func slowAfter(n int) time.Duration    { return 10*time.Second + time.Duration(n)*200*time.Microsecond }
 func abandonAfter(n int) time.Duration { return 120*time.Second + time.Duration(n)*400*time.Microsecond }
 
 // allocBudget: 64 MiB flat plus 4 KiB per input byte.  The measured maxima on
@@ -390,6 +391,8 @@ func runFuzz(c *vh.Ctx, only string, rp *freplay) {
 		fmt.Fprintln(os.Stderr, "corpus:", err)
 		os.Exit(3)
 	}
+	// the structured "tag semantics" stream first (systematic, see tagsem.go)
+	f.runTagSemantics(c, es, cp, only)
 	adv := adversarial(c.Thorough())
 	perEntry := c.Pick(20, 250)
 	for i := range es {
@@ -476,7 +479,7 @@ func (f *fuzzer) report(es []entry, cp *corpus) {
 		panics += s.panics
 	}
 	sort.Slice(rows, func(i, j int) bool { return rows[i].s.maxAlloc > rows[j].s.maxAlloc })
-	c.Res.Notes = append(c.Res.Notes, fmt.Sprintf("FUZZING (not a proof): %d cases over %d public entry points: %d values, %d errors, %d panics; violation rule: panic, CPU time > 5 s + 100 us/byte (abandoned after 120 s + 400 us/byte wall), or peak live heap > 256 MiB + 4096 B per input byte (first stage: cumulative allocation of the call <= 64 MiB + 4096 B/byte settles it; %d cases needed the second stage = forced-GC peak-live measurement, max of 2)",
+	c.Res.Notes = append(c.Res.Notes, fmt.Sprintf("FUZZING (not a proof): %d cases over %d public entry points: %d values, %d errors, %d panics; violation rule: panic, CPU time > 10 s + 200 us/byte (abandoned after 120 s + 400 us/byte wall), or peak live heap > 256 MiB + 4096 B per input byte (first stage: cumulative allocation of the call <= 64 MiB + 4096 B/byte settles it; %d cases needed the second stage = forced-GC peak-live measurement, max of 2)",
 		f.total, len(f.stats), values, errs, panics, f.restaged))
 	for i, r := range rows {
 		if i >= 8 {
